@@ -275,9 +275,6 @@ func parseHeaderValueBlock(r io.Reader, streamId StreamId) (http.Header, uint32,
 			return nil, 0, err
 		}
 		name := string(nameBytes)
-		if !validHeaderName(name) {
-			return nil, 0, &Error{InvalidHeaderPresent, streamId}
-		}
 		if name != strings.ToLower(name) {
 			e = &Error{UnlowercasedHeaderName, streamId}
 			name = strings.ToLower(name)
@@ -296,8 +293,11 @@ func parseHeaderValueBlock(r io.Reader, streamId StreamId) (http.Header, uint32,
 		if _, err := io.ReadFull(r, value); err != nil {
 			return nil, 0, err
 		}
-		if !validHeaderValue(string(value)) {
-			return nil, 0, &Error{InvalidHeaderPresent, streamId}
+		// an invalid header is recorded and skipped, but the rest of the block is
+		// still consumed: all header blocks share one decompression context
+		if !validHeaderName(name) || !validHeaderValue(string(value)) {
+			e = &Error{InvalidHeaderPresent, streamId}
+			continue
 		}
 		valueList := strings.Split(string(value), headerValueSeparator)
 		for _, v := range valueList {
